@@ -86,8 +86,10 @@ func Load(patterns []string, options ...func(c *packages.Config)) (*Universe, er
 				localPkgPaths[p.PkgPath] = directPkgPaths[p.PkgPath]
 
 				if pkgDir := p.Dir; pkgDir != "" {
-					x, _ := hashDir(pkgDir)
-					u.sumFile.Data[p.PkgPath] = x
+					// a dir which could not be hashed gets no sum, so it is never taken as cached
+					if x, err := hashDir(pkgDir); err == nil {
+						u.sumFile.Data[p.PkgPath] = x
+					}
 
 					if mod := pkg.Module(); mod != nil {
 						if u.sumFile.Dir == "" {
